@@ -84,19 +84,31 @@ def main(tier='quick'):
     hot = [(code, cls) for code in (0x0000, 0xFF00, 0xFE00, 0xB000, 0xA700, 0xC123, 0x0110, 0xFF01) for cls in (dm.CStoreRSPMessage, dm.CFindRSPMessage, dm.CMoveRSPMessage, dm.CEchoRSPMessage)]
     wrong, stop_at = [], __import__('time').time() + (2.0 if tier == 'quick' else 20.0)
 
+    def registrar():
+        # the application registers private statuses while associations are classifying (add_status is public)
+        k = 0
+        while __import__('time').time() < stop_at and len(wrong) < 5:
+            lo = 0x9000 + (k % 200) * 16
+            statuses.add_status(lo, 'Warning', 'private %d' % k, end=lo + 3, command=dm.NDeleteRSPMessage)
+            k += 1
+
     def hammer(k):
         r = random.Random(k)
         n = 0
         while __import__('time').time() < stop_at and len(wrong) < 5:
             code, cls = hot[r.randrange(len(hot))]
-            got = classify(code, cls)
+            try:
+                got = classify(code, cls)
+            except Exception as exc:      # noqa
+                wrong.append((hex(code), cls.__name__, 'raised %s: %s' % (type(exc).__name__, exc), tables[cls][code]))
+                continue
             if got != tables[cls][code]:
                 wrong.append((hex(code), cls.__name__, got, tables[cls][code]))
             n += 1
     old = sys.getswitchinterval()
     sys.setswitchinterval(1e-6)
     try:
-        ths = [threading.Thread(target=hammer, args=(k,)) for k in range(4)]
+        ths = [threading.Thread(target=hammer, args=(k,)) for k in range(4)] + [threading.Thread(target=registrar)]
         for t in ths:
             t.start()
         for t in ths:
@@ -106,6 +118,19 @@ def main(tier='quick'):
     for w in wrong[:3]:
         v.report({'site': 'statuses.Status', 'clause': 'concurrent-classification-differs'},
                  'with four threads classifying at once Status(%s, %s) came out as %r, sequentially it is %r' % w, replay={'class': w[1], 'pass': 'concurrent'})
+    # general statuses registered by the application on codes a service defines itself: the service's classification still
+    # comes first for that service, the new one holds where no service says otherwise (last: it changes the tables)
+    statuses.add_status(0xB000, 'Failure', 'site-specific meaning of B000')
+    statuses.add_status(0xFF00, 'Failure', 'site-specific', end=0xFF0F)
+    statuses.add_status(0xC100, 'Warning', 'site-specific', end=0xC1FF)
+    for code, cls, want in ((0xB000, dm.CStoreRSPMessage, 'Warning'), (0xB000, dm.CGetRSPMessage, 'Warning'), (0xFF00, dm.CFindRSPMessage, 'Pending'),
+                            (0xFF01, dm.CFindRSPMessage, 'Pending'), (0xC123, dm.CStoreRSPMessage, 'Failure'), (0xB000, None, 'Failure'),
+                            (0xFF00, dm.CEchoRSPMessage, 'Failure'), (0xC123, dm.CEchoRSPMessage, 'Warning')):
+        got = classify(code, cls)
+        if got[0] != want or not got[1] or not got[2]:
+            v.report({'site': 'statuses.Status', 'clause': 'service-specific-code-gets-the-service-class', 'class': cls.__name__ if cls else None, 'after': 'add_status'},
+                     'after general statuses were registered for B000H, FF00H-FF0FH, C100H-C1FFH: Status(%#x, %s) is %r, expected %s' % (
+                         code, cls.__name__ if cls else None, got, want), replay={'class': cls.__name__ if cls else None, 'pass': 'after-add_status'})
     # request classes given as `command` must behave like their own table lookups too: same judgment, cmd = their field
     res, stats = tlc.validate_traces('Trace_StatusClass', 'Trace_StatusClass.cfg', [[c] for c in cases], chunk=100, timeout=3000)
     for meta, c, r in zip(metas, cases, res):
